@@ -196,7 +196,7 @@ func init() {
 	reg("(*sync.RWMutex).RUnlock", func(fr *frame, a []value) value { fr.ex().runlock(a[0].(*value)); return nil })
 	reg("(*sync.WaitGroup).Add", func(fr *frame, a []value) value {
 		ex := fr.ex()
-		ex.yieldK(true, ex.cfg.bounds["preempt_sync"] == 1)
+		ex.yieldK(false, ex.cfg.bounds["preempt_sync"] == 1)
 		w := ex.wg(a[0].(*value))
 		w.n += asInt64(a[1])
 		if w.n < 0 {
@@ -206,7 +206,7 @@ func init() {
 	})
 	reg("(*sync.WaitGroup).Done", func(fr *frame, a []value) value {
 		ex := fr.ex()
-		ex.yieldK(true, ex.cfg.bounds["preempt_sync"] == 1)
+		ex.yieldK(false, ex.cfg.bounds["preempt_sync"] == 1)
 		w := ex.wg(a[0].(*value))
 		w.n--
 		if w.n < 0 {
@@ -720,6 +720,22 @@ func init() {
 		}
 		s.ran = true
 		call(fr.i, fr, token.NoPos, s.fn, s.args)
+		return nil
+	})
+	reg("verifStartSpawned", func(fr *frame, a []value) value {
+		// turn a pending goroutine (recorded in L3 mode) into a thread (threaded mode)
+		ex := fr.ex()
+		s := ex.spawned[int(asInt64(a[0]))]
+		if s.ran {
+			panic(pathEnd{"abort", "verifStartSpawned: already ran"})
+		}
+		s.ran = true
+		ex.startThread(fr.i, s.fn, s.args)
+		return nil
+	})
+	reg("verifGo", func(fr *frame, a []value) value {
+		ex := fr.ex()
+		ex.startThread(fr.i, a[0].(iface).v, nil)
 		return nil
 	})
 	reg("verifTime", func(fr *frame, a []value) value { return timeVal(a[0]) })
